@@ -1,6 +1,7 @@
 import AggkitModel.Model.L1InfoStore
 import AggkitModel.Properties.C01
 import AggkitModel.Properties.C08
+import AggkitModel.Generated.SyncFacts
 set_option linter.unusedSectionVars false
 /-
 C11 — the L1 info tree and the rollup exit tree mirror the L1 contracts.
@@ -175,5 +176,12 @@ theorem C11_info_root_is_contract_root (H : HashAlg α) (hinj : H.Inj) (n : Nat)
       ∃ r, getRootByIndex s.db i = some r ∧
         r.hash = DC.getRoot H n (DC.depositAll H n (DC.empty H n) (ls.take (i+1))) :=
   C01_root H hinj n ops wf s ls hs hls
+
+/-- what the model takes from the source (regenerated on every run): the position an event gets inside its block is the
+    LOG index (unique per block, in emission order) — the model's "one leaf per update, in chain order" rests on it; the
+    same holds for the bridge syncer's events -/
+theorem C11_code_facts :
+    Gen.SyncFacts.blockPosExprs_l1info = ["uint64(l.Index)"] ∧ Gen.SyncFacts.blockPosExprs_bridge = ["uint64(l.Index)"] := by
+  decide
 
 end Aggkit.C11
